@@ -36,6 +36,10 @@ CHECKS = {
  'C05': dict(sec='3/C05', tech='TLC enumeration of Scoring.tla (dispatch table + exact scorer results per column pair) + replay of every frame into the real mixed_rank_graph under rotating heuristic names; documented names extracted from the repository at check time',
              text='Scoring.tla fixes for every heuristic name the scorer kind, the category coding (rank in the sorted value set), the conditioning side (label) and the exact result (log-vectors / rationals); TLC enumerates every frame of a bounded space and each is scored by the real mixed_rank_graph with adversarial string renderings; DocumentedNotConstant is checked on the model with the documented names and on the real code with a probe frame.',
              note='frames: label + 2-3 features, 3-5 rows, <=3 values; Pearson/AMI library formulas evaluated by the harness on independent codes'),
+
+ 'C08': dict(sec='3/C08', tech='TLC on Streaming.tla (exhaustive small constants) + literal replay of every small file into the real streaming loop + TraceStreaming.tla validation of full-scale recorded runs (real constants, CLI included)',
+             text='Streaming.tla has one action per branch of the line loop and the tail; ConsumedExactly, InvalidCounted, CheckpointIsMedianSoFar, OutputAscending are model-checked for every file of Good/Bad lines around every batch/tail boundary; every small file is replayed through the real estimate_importances_minibatches; full-scale executions (minibatch 1100-4096, tail sizes 1023/1024/1025, malformed rows at boundaries) are recorded at the loop linearisation points and validated event by event, every checkpoint table and the written file included.',
+             note='exhaustive files up to 8-16 lines; full-scale runs are seeded; scores compared as scaled integers with tolerance 2 units on doubled medians'),
 }
 
 checks = []
